@@ -8,7 +8,7 @@ class C13(SCheck):
     prop = "C13"
     level = "exploration"
     default_seed = 13013
-    N = {"quick": 300, "thorough": 8000}
+    N = {"quick": 500, "thorough": 8000}
     K = {"quick": 2, "thorough": 3}
     technique = "deterministic simulation (input-driven): generated link graphs under -L, permuted directory order, snapshot vs resolved-tree model + trace (no symlink call)"
     rule = ("case = tree with links to files, to directories (with content), chains up to 38, relative/absolute, inside/outside the source, "
